@@ -27,6 +27,7 @@ class K:
 
 MERGED = ["a", "b", "a;b", "TRASH", "Empty", "TrashNode", "a; b", "b;a", "c", ";"]
 MIXED = [1, "1", "1;2", 2, "2", (1, 2)]
+RESERVED_FA = ["Start0", "Start1", "TrashNode", "TrashNode0", "star_start", "Start2", "Empty", "Start"]
 TUPLES = [(0, "x"), ("p", 1), (0,), (1, "x"), ("p", 2), ()]
 STRS = ["q0", "q1", "q2", "q3", "q4", "q5", "q6", "q7"]
 SYM_STR = ["a", "b", "cd", "x1"]
@@ -41,6 +42,8 @@ def state_value(vc, i, perm=None):
         return STRS[i % len(STRS)] if i < len(STRS) else "q%d" % i
     if vc == "merged":
         return MERGED[i] if i < len(MERGED) else "m%d" % i
+    if vc == "reservedfa":
+        return RESERVED_FA[i] if i < len(RESERVED_FA) else "r%d" % i
     if vc == "mixed":
         return MIXED[i] if i < len(MIXED) else "x%d" % i
     if vc == "tuple":
@@ -63,4 +66,4 @@ def symbol_value(vc, j, token=False):
     return SYM_STR[j % len(SYM_STR)]
 
 
-FA_VALUE_CLASSES = ["int", "str", "merged", "mixed", "tuple", "inject", "binary"]
+FA_VALUE_CLASSES = ["int", "str", "merged", "mixed", "tuple", "inject", "binary", "reservedfa"]
